@@ -216,6 +216,14 @@ pub fn run(ctx: &Ctx) -> i32 {
             check_case(ctx, st, &cs[i], Settings::new(REP));
         });
     }
+    // code points at arithmetic distances from the encoding boundaries (position arithmetic slips)
+    {
+        let far = gen::far_neighbour_sets();
+        par_for(&ctx.run, far.len(), |i, st| {
+            st.count("far_neighbour_sets");
+            check_case(ctx, st, &far[i], Settings::new(0));
+        });
+    }
     let n = if ctx.thorough { 200_000 } else { 8_000 };
     let alphabets: Vec<(String, Vec<String>)> = gen::ALPHABETS.iter().map(|a| (a.to_string(), gen::alphabet(a))).collect();
     par_for(&ctx.run, n, |i, st| {
